@@ -162,7 +162,7 @@ class SQLiteAlterTableSQLResult(AlterTableSQLResult):
 
                 field_values[new_column] = qn(old_column)
 
-        field_initials = []
+        field_initials = OrderedDict()
 
         # If we have any new fields, add their defaults.
         if new_initial:
@@ -177,7 +177,7 @@ class SQLiteAlterTableSQLResult(AlterTableSQLResult):
                     if embed_initial:
                         field_values[column] = initial
                     else:
-                        field_initials.append(initial)
+                        field_initials[column] = initial
 
                         if column in field_values:
                             field_values[column] = \
@@ -244,7 +244,14 @@ class SQLiteAlterTableSQLResult(AlterTableSQLResult):
                 ),
                 qn(table_name),
             ),
-            tuple(field_initials)
+            # The parameters must be in the order their placeholders appear
+            # in the SELECT, which is the order of field_values and not
+            # necessarily the order the initial values were registered in.
+            tuple(
+                field_initials[column]
+                for column in six.iterkeys(field_values)
+                if column in field_initials
+            )
         ))
 
         # Step 3: Drop the old table, making room for us to recreate the
